@@ -17,6 +17,7 @@ No Mathlib imports.
 -/
 import Vibrato.Util.Wire
 import Vibrato.Model.LatticeW
+import Vibrato.Model.Chain
 import Vibrato.Driver.Tok
 
 namespace Vibrato.Driver.Tok16
@@ -73,14 +74,8 @@ def handle (toks : List String) : String :=
 One word `a` (word cost `w`), one connection cost `c`: the lattice of `a`×`n` has exactly one path, and token `i` carries the
 accumulated cost `(i+1)·(w+c)`.  The driver answers `tokchain` lines with this closed form (the list-based lattice model is
 quadratic in the sentence length, and the cases have 30 000 – 65 000 characters); the `#guard`s below evaluate the lattice
-model itself on short chains and compare it with the closed form (tests, labelled as such). -/
-
-def chainEnv (n : Nat) (w c : Int) : LatEnv :=
-  { len := n
-    conn := fun _ _ => c
-    skip := fun _ => 0
-    cands := fun p =>
-      if p < n then [{ endWord := p + 1, wordId := 0, lexType := 0, leftId := 0, rightId := 0, wordCost := w }] else [] }
+model itself on short chains and compare it with the closed form (tests, labelled as such); the closed form itself is the theorem `chain_tokens` of
+`Props/C02chain.lean` (every node stored at boundary `e` of a chain lattice has `min_cost = e·(w+c)`). -/
 
 def chainClosed (n : Nat) (w c : Int) : List Int := (List.range n).map fun (i : Nat) => (Int.ofNat i + 1) * (w + c)
 
